@@ -327,3 +327,25 @@ def filter_text(f, top=True):
 def query_text(filt, stages):
     ft = filter_text(filt)
     return ' | '.join([ft] + [stage_text(s) for s in stages])
+
+
+def expr_text_full(e):
+    """every binary / unary node explicitly parenthesised"""
+    t = e[0]
+    if t in ('col', 'lit'):
+        return expr_text(e)
+    if t == 'paren':
+        return expr_text_full(e[1])
+    if t == 'not':
+        return '!(' + expr_text_full(e[1]) + ')'
+    if t == 'call':
+        return e[1] + '(' + ', '.join(expr_text_full(a) for a in e[2]) + ')'
+    if t == 'if':
+        return 'if(' + ', '.join(expr_text_full(a) for a in e[1:4]) + ')'
+    if t == 'lg':
+        return '(' + expr_text_full(e[2]) + ' ' + e[1] + ' ' + expr_text_full(e[3]) + ')'
+    if t == 'cmp':
+        return '(' + expr_text_full(e[2]) + ' ' + CMP_TXT[e[1]] + ' ' + expr_text_full(e[3]) + ')'
+    if t == 'ar':
+        return '(' + expr_text_full(e[2]) + ' ' + AR_TXT[e[1]] + ' ' + expr_text_full(e[3]) + ')'
+    raise TypeError(repr(e))
